@@ -125,6 +125,12 @@ func isFreshExpr(e ast.Expr) bool {
 	return false
 }
 
+// s[:n:n] (full slice expression): an append to it always allocates
+func isClipped(e ast.Expr) bool {
+	se, ok := e.(*ast.SliceExpr)
+	return ok && se.Slice3 && se.Max != nil
+}
+
 // steps of a selector/index chain, outermost last; root identifier returned separately
 type stepKind int
 
@@ -181,10 +187,19 @@ func chain(e ast.Expr) (root string, steps []step, ok bool) {
 // resolve an expression to a value description
 // describe the VALUE of e (what a variable defined from it holds): an element or
 // dereference of shared storage is a copy. describeLoc describes the LOCATION.
-func (ev env) describe(e ast.Expr) *info { return ev.describe2(e, true) }
+func (ev env) describe(e ast.Expr) *info    { return ev.describe2(e, true) }
 func (ev env) describeLoc(e ast.Expr) *info { return ev.describe2(e, false) }
 
 func (ev env) describe2(e ast.Expr, asValue bool) *info {
+	// the result of append(s, ...) may share s's backing array
+	if c, ok := e.(*ast.CallExpr); ok && !isFreshExpr(e) {
+		if id, ok := c.Fun.(*ast.Ident); ok && id.Name == "append" && len(c.Args) > 0 {
+			if isClipped(c.Args[0]) {
+				return &info{k: kOwned, owned: map[string]bool{"[]": true}, fresh: true}
+			}
+			return ev.describe2(c.Args[0], false)
+		}
+	}
 	if isFreshExpr(e) {
 		in := &info{k: kOwned, owned: map[string]bool{}, fresh: true, astTy: typeMentionsAST(e)}
 		// fields of a composite literal that are themselves fresh are owned
@@ -296,13 +311,16 @@ func (ev env) describe2(e ast.Expr, asValue bool) *info {
 			switch s.k {
 			case sField:
 				if cur.owned[s.name] {
-					cur = &info{k: kOwned, owned: map[string]bool{"[]": true}}
+					cur = &info{k: kOwned, owned: map[string]bool{"[]": true}, fresh: cur.fresh, astTy: cur.astTy}
+				} else if cur.fresh && !fieldTaint[s.name] {
+					return nil // a field of a value built here that never receives AST storage
 				} else {
 					cur = &info{k: kShared}
 				}
 			case sIndex:
 				if cur.owned["[]"] {
-					cur = &info{k: kOwned, owned: map[string]bool{}} // element of an owned slice: a struct we own
+					// element of an owned slice: a struct we own (and as unrelated to the AST as its container)
+					cur = &info{k: kOwned, owned: map[string]bool{}, fresh: cur.fresh, astTy: cur.astTy}
 				} else {
 					cur = &info{k: kShared}
 				}
@@ -382,8 +400,40 @@ type site struct {
 
 var sites []site
 
+// field names that, somewhere in the function under analysis, are given a value
+// that aliases AST storage (composite literal field or assignment): a slice
+// held in such a field of any local struct may be the cached AST's slice
+var fieldTaint map[string]bool
+
 func analyseFunc(file string, fd *ast.FuncDecl) {
+	fieldTaint = map[string]bool{}
+	analysePass(file, fd, 1)
+	analysePass(file, fd, 2)
+}
+
+func isAlias(in *info) bool {
+	return in != nil && (in.k == kPath || in.k == kShared || in.k == kNode)
+}
+
+func cloneEnv(ev env) env {
+	c := env{}
+	for k, v := range ev {
+		w := *v
+		if v.owned != nil {
+			w.owned = map[string]bool{}
+			for f, b := range v.owned {
+				w.owned[f] = b
+			}
+		}
+		c[k] = &w
+	}
+	return c
+}
+
+func analysePass(file string, fd *ast.FuncDecl, pass int) {
 	ev := env{}
+	expired := map[string]bool{} // "root.field" re-created only inside a conditional block that has ended
+	handled := map[token.Pos]bool{}
 	if fd.Type.Params != nil {
 		for _, f := range fd.Type.Params.List {
 			if !typeMentionsAST(f.Type) {
@@ -409,6 +459,11 @@ func analyseFunc(file string, fd *ast.FuncDecl) {
 			} else {
 				ev[id.Name] = in
 			}
+		}
+	}
+	addSite := func(st site) {
+		if pass == 2 {
+			sites = append(sites, st)
 		}
 	}
 	record := func(lhs ast.Expr) {
@@ -439,8 +494,22 @@ func analyseFunc(file string, fd *ast.FuncDecl) {
 		}
 		// a chain of field selections only, starting at a local struct we own, stays inside that struct
 		if rin := ev[root]; rin != nil && rin.k == kOwned {
-			if rin.fresh && !rin.astTy {
+			viaTainted := false
+			for i, st := range steps[:len(steps)-1] {
+				if st.k == sField && fieldTaint[st.name] && !rin.owned[st.name] {
+					for _, later := range steps[i+1:] {
+						if later.k != sField {
+							viaTainted = true // an index or dereference below the aliasing field
+						}
+					}
+				}
+			}
+			if rin.fresh && !rin.astTy && !viaTainted {
 				return // a value built here whose type has nothing to do with the AST
+			}
+			if viaTainted {
+				addSite(site{file, name, text(lhs), "Shared", "through a field that aliases AST storage in this function"})
+				return
 			}
 			fieldsOnly := true
 			for _, st := range steps {
@@ -449,7 +518,7 @@ func analyseFunc(file string, fd *ast.FuncDecl) {
 				}
 			}
 			if fieldsOnly {
-				sites = append(sites, site{file, name, text(lhs), "OwnedField", "field (of a nested struct value) of a local copy / fresh value"})
+				addSite(site{file, name, text(lhs), "OwnedField", "field (of a nested struct value) of a local copy / fresh value"})
 				return
 			}
 		}
@@ -489,7 +558,68 @@ func analyseFunc(file string, fd *ast.FuncDecl) {
 		case kShared:
 			why = "AST-derived storage that was not cloned in this function"
 		}
-		sites = append(sites, site{file, name, text(lhs), class, why})
+		addSite(site{file, name, text(lhs), class, why})
+	}
+
+	// append(s, ...) / copy(s, ...): the write goes to the backing array of s
+	sliceTarget := func(call *ast.CallExpr, stmtText string) {
+		if handled[call.Pos()] || len(call.Args) == 0 {
+			return
+		}
+		handled[call.Pos()] = true
+		a0 := call.Args[0]
+		if isFreshExpr(a0) || isClipped(a0) {
+			return
+		}
+		if id, ok := a0.(*ast.Ident); ok && id.Name == "nil" {
+			return
+		}
+		in := ev.describeLoc(a0)
+		root, steps, okc := chain(a0)
+		shared, why := false, ""
+		suffix := ""
+		switch {
+		case in != nil && in.k == kOwned && in.owned["[]"]:
+			// a slice created in this function
+		case in != nil && in.k == kPath:
+			if !clonedLevels[strings.Join(in.path, ".")] {
+				shared, why = true, "slice shared with the cached AST (AST."+strings.Join(in.path, ".")+"): writes the spare capacity of its backing array"
+			}
+		case in != nil && (in.k == kShared || in.k == kNode):
+			shared, why = true, "slice derived from AST storage that was not re-created in this function"
+		}
+		if !shared && okc && len(steps) > 0 {
+			last := steps[len(steps)-1]
+			if last.k == sField && fieldTaint[last.name] {
+				rin := ev[root]
+				ownedHere := rin != nil && rin.k == kOwned && len(steps) == 1 && rin.owned[last.name]
+				if !ownedHere {
+					shared, why = true, "slice held in a field that aliases AST storage in this function"
+					if len(steps) == 1 && expired[root+"."+last.name] {
+						suffix = " {after a conditional re-creation of " + root + "." + last.name + "}"
+					}
+				}
+			}
+		}
+		if shared && suffix == "" && okc && len(steps) == 1 && steps[0].k == sField && expired[root+"."+steps[0].name] {
+			suffix = " {after a conditional re-creation of " + root + "." + steps[0].name + "}"
+		}
+		if shared {
+			addSite(site{file, name, stmtText + suffix, "Shared", why})
+		}
+	}
+	builtinSliceWrite := func(e ast.Expr) *ast.CallExpr {
+		if c, ok := e.(*ast.CallExpr); ok {
+			if id, ok := c.Fun.(*ast.Ident); ok && (id.Name == "append" || id.Name == "copy") {
+				return c
+			}
+		}
+		return nil
+	}
+	taintField := func(fieldName string, rhs ast.Expr) {
+		if isAlias(ev.describe(rhs)) {
+			fieldTaint[fieldName] = true
+		}
 	}
 	var walk func(n ast.Node)
 	walk = func(n ast.Node) {
@@ -498,7 +628,65 @@ func analyseFunc(file string, fd *ast.FuncDecl) {
 			case *ast.FuncLit:
 				// closures see the enclosing environment
 				return true
+			case *ast.IfStmt:
+				// what a branch re-creates is owned only inside that branch
+				if t.Init != nil {
+					walk(t.Init)
+				}
+				walk(t.Cond)
+				for _, blk := range []ast.Node{t.Body, t.Else} {
+					if blk == nil || blk == ast.Node((*ast.BlockStmt)(nil)) {
+						continue
+					}
+					saved := cloneEnv(ev)
+					walk(blk)
+					for nm, in := range ev {
+						if in.k == kOwned {
+							for f := range in.owned {
+								if old := saved[nm]; old == nil || old.k != kOwned || !old.owned[f] {
+									expired[nm+"."+f] = true
+								}
+							}
+						}
+					}
+					for k := range ev {
+						delete(ev, k)
+					}
+					for k, v := range saved {
+						ev[k] = v
+					}
+				}
+				return false
+			case *ast.CompositeLit:
+				for _, el := range t.Elts {
+					if kv, ok := el.(*ast.KeyValueExpr); ok {
+						if id, ok := kv.Key.(*ast.Ident); ok {
+							taintField(id.Name, kv.Value)
+						}
+					}
+				}
+				return true
+			case *ast.ExprStmt:
+				if c := builtinSliceWrite(t.X); c != nil {
+					sliceTarget(c, text(t.X))
+				}
+				return true
+			case *ast.CallExpr:
+				if c := builtinSliceWrite(t); c != nil {
+					sliceTarget(c, text(t))
+				}
+				return true
 			case *ast.AssignStmt:
+				for i, r := range t.Rhs {
+					if c := builtinSliceWrite(r); c != nil && i < len(t.Lhs) {
+						sliceTarget(c, text(t.Lhs[i])+" = "+text(r))
+					}
+					if i < len(t.Lhs) {
+						if se, ok := t.Lhs[i].(*ast.SelectorExpr); ok {
+							taintField(se.Sel.Name, r)
+						}
+					}
+				}
 				if t.Tok == token.DEFINE || t.Tok == token.ASSIGN {
 					if len(t.Lhs) == len(t.Rhs) {
 						for i := range t.Lhs {
@@ -509,6 +697,8 @@ func analyseFunc(file string, fd *ast.FuncDecl) {
 									if id, ok := se.X.(*ast.Ident); ok {
 										if in := ev[id.Name]; in != nil && in.k == kOwned && isFreshExpr(t.Rhs[i]) {
 											in.owned[se.Sel.Name] = true
+										} else if in == nil && isFreshExpr(t.Rhs[i]) && fieldTaint[se.Sel.Name] {
+											ev[id.Name] = &info{k: kOwned, owned: map[string]bool{se.Sel.Name: true}, fresh: true}
 										}
 									}
 								}
@@ -542,7 +732,7 @@ func analyseFunc(file string, fd *ast.FuncDecl) {
 						case kPath, kNode, kShared:
 							el = &info{k: kOwned, owned: map[string]bool{}} // the range variable is a copy of the element
 						case kOwned:
-							el = &info{k: kOwned, owned: map[string]bool{}}
+							el = &info{k: kOwned, owned: map[string]bool{}, fresh: src.fresh, astTy: src.astTy}
 						}
 					}
 					define(t.Value, el)
@@ -553,7 +743,7 @@ func analyseFunc(file string, fd *ast.FuncDecl) {
 					if ta, ok := as.Rhs[0].(*ast.TypeAssertExpr); ok {
 						if in := ev.describe(ta.X); in != nil && in.k != kNone {
 							define(as.Lhs[0], &info{k: kNode})
-						} else if r, _, ok := chain(ta.X); ok && ev[r] != nil {
+						} else if r, _, ok := chain(ta.X); ok && ev[r] != nil && !(ev[r].fresh && !ev[r].astTy) {
 							define(as.Lhs[0], &info{k: kNode})
 						}
 					}
